@@ -47,6 +47,7 @@ fn lit(l: &syn::Lit) -> Value {
             json!({"k":"Lit","t":"int","v":i.base10_digits(),"suffix":i.suffix(),"line":line(l)})
         }
         syn::Lit::Bool(b) => json!({"k":"Lit","t":"bool","v":b.value,"line":line(l)}),
+        syn::Lit::Byte(b) => json!({"k":"Lit","t":"byte","v":b.value(),"line":line(l)}),
         _ => unsupported("literal", l),
     }
 }
